@@ -47,6 +47,7 @@ PROPKEY = {"int": "c11.i", "string": "c11.s", "bool": "c11.b", "float": "c11.f"}
 FOREIGN = [("json", "x"), ("yaml", "y"), ("inject", "z"), ("mapstructure", "q"), ("wired", ""), ("values", "42"),
            ("Wire", "")]
 CFGA_PREFIX = "c11.cfga"
+LOGGER_PREFIXES = ["pfx", "my-prefix", "c11.log"]
 # every tag some registered processor scans for: the built-in ones and the two user-registered scanners of the driver
 RECOGNISED = ("wire", "func", "value", "prop", "prefix", "logger", "rec", "aux")
 # what people put around a tag name: other libraries' keys such as nowire / default_value / table_prefix / audit_logger / bookmark
@@ -116,8 +117,11 @@ def recognised_tags(rng, kind):
             return [mk_tag("wire", "", [("required", ["false"])] if rng.random() < 0.2 else [])]
         return [mk_tag("func", "Ping")]
     if kind == "logger":
+        # the prefix comes from the tag, else from the component (or, with `embed`, from the declaring struct's position)
+        val = "" if rng.random() < 0.65 else rng.choice(LOGGER_PREFIXES)
         r = rng.random()
-        return [mk_tag("logger", "" if r < 0.6 else "pfx", [("embed", [""])] if r > 0.85 else [])]
+        args = [("embed", [""])] if r < 0.22 else [("note", ["a"])] if r < 0.30 else []
+        return [mk_tag("logger", val, args)]
     if kind == "cfgplain":
         return [mk_tag("prefix", "c11.cfg")]
     if kind == "map":
@@ -612,6 +616,11 @@ def coq_path(p):
     return vlib.coq_list(cs(x) for x in p)
 
 
+def coq_logs(snap):
+    """[path, prefix] of every non-nil syslog.Logger field after Run, as the driver's describeLogger renders it"""
+    return vlib.coq_list("(%s, %s)" % (coq_path(x[0].split(".")), cs(x[1])) for x in ((snap or {}).get("logs") or []))
+
+
 def changed_paths(snap):
     snap = snap or {}
     b = dict((x[0], x[1]) for x in snap.get("before") or [])
@@ -647,26 +656,33 @@ def coq_case(case, obs):
         fl = obs["flat"]
         nv = [(leaf_key(case["shape"], x[0].split(".")), x[1]) for x in main.get("after") or []]
         fv = [(x[0], x[1]) for x in fl.get("after") or []]
-        meta = "(Some (mkMeta %s %s %s))" % (
+        meta = "(Some (mkMeta %s %s %s %s))" % (
             vlib.coq_list("(%s, %s)" % (cs(k), cs(v)) for k, v in nv),
             vlib.coq_list("(%s, %s)" % (cs(k), cs(v)) for k, v in fv),
-            vlib.coq_list(coq_pobs(p) for p in (fl.get("props") or [])))
-    return "mkCase %d %s %s %s %s %s %s" % (case["id"], vlib.coq_list(coq_shape(s) for s in case["shape"]),
-                                            coq_procs(obs.get("procs") or []), vlib.coq_bool(ok), props, changed, meta)
+            vlib.coq_list(coq_pobs(p) for p in (fl.get("props") or [])), coq_logs(fl))
+    return "mkCase %d %s %s %s %s %s %s %s %s" % (case["id"], vlib.coq_list(coq_shape(s) for s in case["shape"]),
+                                                  coq_procs(obs.get("procs") or []), vlib.coq_bool(ok), props, changed, meta,
+                                                  vlib.coq_bool(bool(case["static"])), coq_logs(main))
 
 
-def evaluate(ctx, cases, tag):
+def evaluate(ctx, cases, tag, verbose=None):
+    """verbose: None = the fixed share of the batch runs under the formatting logger; True / False = the whole batch does / does not
+    (replay and shrinking keep the mode of the case they start from)"""
     binp = build_driver(ctx, cases, tag)
-    rc, res, raw = vlib.run_json(binp, {"cases": [go_case(c) for c in cases]}, timeout=3000)
+    rc, res, raw, loud = vlib.run_json_verbose_share(ctx, binp, {"cases": [go_case(c) for c in cases]}, timeout=3000,
+                                                     pick=None if verbose is None else (lambda i: verbose))
+    loud = set(loud)
     if res is None:
         raise vlib.GoBuildError("./cmd/c11 (run)", raw[-3000:])
     by_id = {}
     terms = []
-    for c, o in zip(cases, res["outs"]):
+    for pos, (c, o) in enumerate(zip(cases, res["outs"])):
         main = o.get("main") or {}
         by_id[c["id"]] = {"case": c, "go_struct": go_struct_text(c["shape"]), "config": config_text(c),
+                          "verbose": pos in loud,
                           "outcome": o["out"], "detail": o["detail"][-600:], "changed": [".".join(p) for p in changed_paths(main)],
                           "props": main.get("props"), "procs": o.get("procs"),
+                          "loggers": main.get("logs"), "flat_loggers": (o.get("flat") or {}).get("logs"),
                           "flat_changed": [".".join(p) for p in changed_paths(o["flat"])] if o.get("flat") else None}
         terms.append(coq_case(c, o))
     out = vlib.coq_eval_sharded(ctx, "cases_c11_" + tag, HEADER, terms,
@@ -872,8 +888,48 @@ def stats(cases):
     return {"struct_variants": variants, "embedding_depth": depth_hist, "leaf_tags": kinds,
             "repeated_embedded_types": rep,
             "foreign_tags_that_look_like_recognised_ones": foreign,
+            "logger_points": logger_stats(cases),
             "static_types_cases": sum(1 for c in cases if c["static"]),
             "structof_cases": sum(1 for c in cases if not c["static"])}
+
+
+def logger_form(t):
+    embed = any(n == "embed" for n, _ in t["args"])
+    if t["val"]:
+        return "own_prefix+embed_argument" if embed else "own_prefix"
+    return "position_of_the_declaring_struct(embed)" if embed else "component_name"
+
+
+def logger_stats(cases):
+    """the logger points the scan must reach (exported syslog.Logger fields with a logger tag, through entered structs
+    only), by the form of the tag and the number of embedded structs above them"""
+    out = {"points_by_form_and_embedding_depth": {}, "points": 0, "points_inside_embedded_structs": 0,
+           "cases_with_a_component_named_point_inside_an_embedded_struct": 0,
+           "cases_with_component_named_points_both_direct_and_embedded": 0,
+           "of_these_with_a_flattened_twin": 0}
+
+    def walk(shape, depth, acc):
+        for s in shape:
+            if is_entered(s):
+                walk(s["fs"], depth + 1, acc)
+            elif s["k"] == "logger" and s["e"]:
+                t = next((t for t in s["tags"] if t["key"] == "logger"), None)
+                if t:
+                    acc.append((logger_form(t), depth))
+    for c in cases:
+        acc = []
+        walk(c["shape"], 0, acc)
+        for form, depth in acc:
+            k = "%s@depth%d" % (form, depth)
+            out["points_by_form_and_embedding_depth"][k] = out["points_by_form_and_embedding_depth"].get(k, 0) + 1
+            out["points"] += 1
+            out["points_inside_embedded_structs"] += depth > 0
+        deep = any(f == "component_name" and d > 0 for f, d in acc)
+        out["cases_with_a_component_named_point_inside_an_embedded_struct"] += deep
+        out["cases_with_component_named_points_both_direct_and_embedded"] += deep and any(
+            f == "component_name" and d == 0 for f, d in acc)
+        out["of_these_with_a_flattened_twin"] += deep and flat_buildable(c)
+    return out
 
 
 def repeated_types(case):
@@ -909,18 +965,20 @@ def run(ctx):
     static_ok = vlib.static_obligations(ctx)
     ns, nd = (120, 2000) if ctx.quick() else (400, 30000)
     cases = [renumber(c, i) for i, c in enumerate(load_corpus())]
+    mode = None
     if ctx.replay:
         r = json.load(open(ctx.replay))
         rc = r.get("case", {}).get("case")
         if rc:
             cases = [renumber(rc, 0)]
+            mode = bool(r["case"].get("verbose"))
     else:
         n0 = len(cases)
         for i in range(ns):
             cases.append(gen_case(ctx.rng, n0 + i, True))
         for i in range(nd):
             cases.append(gen_case(ctx.rng, n0 + ns + i, False))
-    by_id, res = evaluate(ctx, cases, "main")
+    by_id, res = evaluate(ctx, cases, "main", mode)
     M, V, nt = res["M"], res["V"], res["NT"]
     outcomes = {}
     for e in by_id.values():
@@ -935,7 +993,7 @@ def run(ctx):
             if not cands:
                 break
             cands = [renumber(c, i) for i, c in enumerate(cands)]
-            b2, r2 = evaluate(ctx, cands, "shrink")
+            b2, r2 = evaluate(ctx, cands, "shrink", bool(cur.get("verbose")))
             if not r2["V"]:
                 break
             best = min(r2["V"], key=lambda i: count_nodes(b2[i]["case"]["shape"]))
@@ -944,7 +1002,10 @@ def run(ctx):
                               "'props' is what the recording tag processor was handed; the oracle demands that every changed "
                               "field is exported, reached through entered embedded structs only and carries a tag of a "
                               "registered processor (or lies inside such a field), that the processors got exactly those "
-                              "fields, and that the flattened twin ends with the same values")
+                              "fields, that the flattened twin ends with the same values, and that every logger point "
+                              "('loggers': path, prefix of the logger it holds, '@' = the component's name) holds the logger "
+                              "the same tag yields on a directly declared field (its own prefix, else '@'; only "
+                              "`logger:\",embed\"` inside an embedded struct names its position)")
         return cur
 
     def widen():
@@ -965,11 +1026,14 @@ def run(ctx):
         "distinct_nontrivial": min(nt, distinct),
         "rule": "real App.Run starts with one generated struct shape (plus its flattened twin, a *Dep, a recording user tag "
                 "processor for tag rec and a scanning one for tag aux) per case; observed: outcome, every property handed to the "
-                "recorder, before/after value of every field at every depth (unexported via unsafe read access), values and "
+                "recorder, before/after value of every field at every depth (unexported via unsafe read access), the prefix "
+                "of the logger every syslog.Logger field holds (the driver installs a prefix-recording logger through "
+                "syslog.SetLogger) and whether it is the shared logger of that prefix, values, loggers and "
                 "properties of the twin; non-trivial = some property lies below an entered embedded struct AND some field "
                 "with a recognised tag must stay untouched (unexported, or inside a struct that is not entered); distinct = "
                 "distinct shapes",
         "repeated_embedded_type_cases": sum(1 for c in cases if repeated_types(c)["tagged"]),
+        "cases_under_formatting_logger": sum(1 for e in by_id.values() if e.get("verbose")),
         "samples": samples,
         "traces_validated_against_impl": len(cases),
         "input_distribution": stats(cases),
